@@ -4,10 +4,13 @@ import (
 	"bytes"
 	"fmt"
 	"io"
+	"sort"
 	"strings"
+	"time"
 
 	"golang.org/x/text/transform"
 	"mellium.im/xmpp/jid"
+	"verif.sim/simrt"
 )
 
 // C16 — JID escaping is a lossless, chunk-independent transform. The part
@@ -16,7 +19,127 @@ import (
 // destination is, or how a transform.Reader/Writer is fed. The pure half is
 // evaluated on the same generated strings.
 
-func init() { register(&Scenario{ID: "C16", Run: runC16, NoSched: true}) }
+func init() {
+	register(&Scenario{ID: "C16", Run: runC16, NoSched: true, Alt: runC16Concurrent, AltEvery: 24})
+}
+
+// runC16Concurrent: the exported transformers are package-level values that every caller shares. Two to four callers
+// use them at the same time (String, Bytes, chunked Transform calls, transform.Reader) under the controlled scheduler
+// with statement-level preemption (instrumenter rule 7, every site armed); every caller's result must be the one the
+// same call gives alone, which must be the reference model's.
+func runC16Concurrent(rc *RC) {
+	ch := rc.Ch
+	rc.S.Strat = simrt.StratUniform
+	n := 2 + ch.Int("workload", 3)
+	type job struct {
+		in, ref, alone, got []byte
+		name, via          string
+		dir, how           int
+		cuts               []int
+		maxDst, rmax       int
+		fail               string
+		panicked           any
+	}
+	jobs := make([]*job, n)
+	apply := func(j *job) (out []byte, fail string) {
+		tr := jid.Escape
+		if j.dir == 1 {
+			tr = jid.Unescape
+		}
+		switch j.how {
+		case 0:
+			return tr.Bytes(append([]byte(nil), j.in...)), ""
+		case 1:
+			return []byte(tr.String(string(j.in))), ""
+		case 2:
+			out, _, fail = driveTransform(rc, tr, j.in, j.cuts, j.maxDst)
+			return out, fail
+		default:
+			sr := &shortReader{rc: rc, b: append([]byte(nil), j.in...), max: j.rmax, errAt: -1}
+			got, err := io.ReadAll(transform.NewReader(sr, tr))
+			if err != nil {
+				return got, err.Error()
+			}
+			return got, ""
+		}
+	}
+	for i := range jobs {
+		j := &job{in: genEscInput(rc), dir: ch.Int("workload", 2), how: ch.Int("workload", 4)}
+		if len(j.in) == 0 {
+			j.in = []byte("a@b c")
+		}
+		j.name, j.via = "Escape", []string{"Bytes", "String", "Transform", "Reader"}[j.how]
+		j.ref = refEscape(j.in)
+		if j.dir == 1 {
+			j.name, j.ref = "Unescape", refUnescape(j.in)
+		}
+		for k, m := 0, ch.Int("chunk", 5); k < m; k++ {
+			j.cuts = append(j.cuts, ch.Int("chunk", len(j.in)+1))
+		}
+		sort.Ints(j.cuts)
+		j.maxDst = []int{4, 9, 40, len(j.in) + 3}[ch.Int("chunk", 4)]
+		j.rmax = []int{1, 3, 17, 300}[ch.Int("chunk", 4)]
+		// the same call alone, before anybody else runs (dense preemption not armed yet)
+		func() {
+			defer func() {
+				if r := recover(); r != nil {
+					j.fail = fmt.Sprint("panic alone: ", r)
+				}
+			}()
+			var f string
+			j.alone, f = apply(j)
+			if f != "" {
+				j.fail = f
+			}
+		}()
+		jobs[i] = j
+		rc.Describe("caller %d: %s via %s in=%q", i, j.name, j.via, clip(string(j.in), 60))
+	}
+	rc.CaseKey = "concurrent"
+	rc.Nontrivial = true
+	rc.S.ForceDense([]int{2, 3, 6}[ch.Int("workload", 3)])
+	for i, j := range jobs {
+		j := j
+		rc.Spawn(fmt.Sprintf("caller%d", i), func() {
+			defer func() {
+				if r := recover(); r != nil {
+					j.panicked = r
+				}
+			}()
+			var f string
+			j.got, f = apply(j)
+			if f != "" && j.fail == "" {
+				j.fail = "concurrent: " + f
+			}
+		})
+	}
+	st := rc.S.Run(nil, 400000, time.Minute)
+	if st != simrt.AllDone {
+		rc.Infraf("C16 concurrent callers did not finish: %v %v", st, rc.S.Stuck())
+	}
+	rc.Fire("concurrent-callers")
+	for i, j := range jobs {
+		if j.alone != nil && j.fail == "" && !bytes.Equal(j.alone, j.ref) {
+			continue // a sequential defect: the sequential runs report it
+		}
+		rc.Evals["C16.c5"]++
+		if j.panicked != nil {
+			rc.Failf("C16.c5", "panic-concurrent:"+j.name+"/"+j.via, "%s via %s on %q panicked while %d other callers used the transformers: %v", j.name, j.via, j.in, n-1, j.panicked)
+			continue
+		}
+		if j.fail != "" && strings.HasPrefix(j.fail, "concurrent: ") {
+			rc.Failf("C16.c1", "concurrent-protocol:"+j.name+"/"+j.via, "caller %d, %s via %s on %q, with %d other callers at the same time: %s (alone: fine)", i, j.name, j.via, j.in, n-1, j.fail)
+			continue
+		}
+		if j.fail != "" {
+			continue
+		}
+		rc.Check("C16.c1", "concurrent-differs:"+j.name+"/"+j.via, bytes.Equal(j.got, j.alone), "caller %d, %s via %s on %q: %q with %d other callers at the same time, %q alone", i, j.name, j.via, j.in, j.got, n-1, j.alone)
+	}
+	if stuck := rc.Teardown(); len(stuck) > 0 {
+		rc.Infraf("C16 concurrent: stuck %v", stuck)
+	}
+}
 
 const escChars = ` "&'/:<>@\`
 
